@@ -116,7 +116,7 @@ template<class M> static void own_internal_table(const char* where) {
     g_bits = v; M m; m.start(); g_log.clear(); tick t_; int r = (int)m.process_event(t_);
     std::string exp; bool taken = false;
     for (int k = 2; k >= 0 && !taken; --k) { exp += "g" + std::to_string(k) + " "; if ((v >> k) & 1) { exp += "a1" + std::to_string(k) + " "; taken = true; } }
-    report(std::string("own-internal-table.") + where + ".bits" + std::to_string(v), g_log == exp && (((r & 1) != 0) == taken), "C01,C13",
+    report(std::string("own-internal-table.") + where + ".bits" + std::to_string(v), g_log == exp && (((r & 1) != 0) == taken) && (r != 0), std::string(where) == "submachine" ? "C01,C13,C06,C07" : "C01,C13,C06",
            "guards=" + std::to_string(v) + " ret=" + std::to_string(r) + " log=[" + g_log + "] expected=[" + exp + "]");
   }
 }
